@@ -48,6 +48,10 @@ func main() {
 		os.Exit(cmdBlocking(os.Args[2:]))
 	case "cfg":
 		os.Exit(cmdCfg(os.Args[2:]))
+	case "rename":
+		os.Exit(cmdRename(os.Args[2:]))
+	case "paramtable":
+		os.Exit(cmdParamTable())
 	case "gosites":
 		os.Exit(cmdGoSites(os.Args[2:]))
 	case "callees":
